@@ -1194,6 +1194,16 @@ fn write_spki(
     Ok(output)
 }
 
+/// Verification hook (only with `--cfg in_toto_rs_verif`): the RSA public
+/// key (PKCS#1 DER) that `PrivateKey::from_pkcs8` derives from a PKCS#8
+/// document, without ring's key validation in front of it.
+#[cfg(in_toto_rs_verif)]
+pub fn verif_rsa_public_from_pkcs8(
+    der_key: &[u8],
+) -> ::std::result::Result<Vec<u8>, String> {
+    extract_rsa_pub_from_pkcs8(der_key).map_err(|e| format!("{:?}", e))
+}
+
 fn extract_rsa_pub_from_pkcs8(
     der_key: &[u8],
 ) -> ::std::result::Result<Vec<u8>, derp::Error> {
